@@ -32,8 +32,8 @@ CLAIMED = {
  "C05": dict(
    category="exploration",
    technique="property-based testing (rapid): inputs from grammar derivations, corpus mutations, typed queries and builder programs; metamorphic oracles (repeat, deep-clone differential, marker non-interference, concurrent vs sequential) plus an input-immutability invariant (address-level reflection snapshots); race detector in the thorough tier",
-   text="ASTs from six sources (random Cypher.g4 derivations, corpus mutations incl. literal->$param with fresh and bound-variable names, typed generated queries, every shipped query, builder programs through package query, cypher model constructors) x parameter maps (31 supported and 25 unsupported value kinds, names that do / do not occur) x kind-mapper knowledge. Each case is decided by: no panic; marker interleaving A,B,A (no value of one call appears in another call's result, results stable); 5 repeated Translate+Translated calls byte-identical with equal parameter maps and stable error text; translation of an independent deep clone gives the same result; FromCypher; 8 goroutines on the shared AST, caller's map and one kind mapper; address-level snapshots of the AST and the parameter map compared after every phase.",
-   note="Schedules are sampled (8 goroutines; -race in thorough only); totality is established only for explored shapes (10 panic/impurity roots found and repaired); a hang would surface as a timeout = inconclusive, not as a violation; a write into spare slice capacity of a caller's slice shows only under -race.",
+   text="ASTs from six sources (random Cypher.g4 derivations, corpus mutations incl. literal->$param with fresh and bound-variable names, typed generated queries (one in three from the lowering / fast-path shaped templates), every shipped query, builder programs through package query, cypher model constructors) x parameter maps (31 supported and 25 unsupported value kinds, names that do / do not occur) x kind-mapper knowledge. Each case is decided by: no panic; marker interleaving A,B,A (no value of one call appears in another call's result, results stable); 5 repeated Translate+Translated calls byte-identical with equal parameter maps and stable error text; translation of an independent deep clone gives the same result; FromCypher; 8 goroutines on the shared AST, caller's map and one kind mapper; address-level snapshots of the AST and the parameter map compared after every phase.",
+   note="Schedules are sampled (8 goroutines; -race in thorough only); totality is established only for explored shapes (10 panic/impurity roots found and repaired); "within bounded time" is decided by the growth sub-check: 23 size-parameterised query families translated at n and 2n, allocation count (<= 16x) and, for allocation-free work, the clock ratio (> 64x with a floor of 250 ms) - an exponential translation is reported as growth; a hang elsewhere would surface as a timeout = inconclusive, not as a violation; a write into spare slice capacity of a caller's slice shows only under -race.",
    design="§4 C05"),
  "C06": dict(
    category="exploration",
@@ -50,7 +50,7 @@ CLAIMED = {
  "C08": dict(
    category="exploration",
    technique="property-based testing / generated-input robustness (rapid): raw lexeme soup, corpus mutations, every corpus prefix (enumerated), grammar derivations; totality + result-shape oracle; allocation-growth measurement on size families; coverage-guided native fuzz target FuzzC08 (90 s) in the thorough tier",
-   text="Generated byte strings (random lexeme/rune/byte concatenations incl. invalid UTF-8, 1-3 token/byte mutations of corpus queries, every prefix of corpus queries, grammar derivations) are parsed under NewContext() and DefaultCypherContext(): no panic, never (nil,nil), blank input rejected, and a model returned with a nil error must be printable by the emitter and walkable. 'Bounded' is decided by a deterministic allocation-count growth exponent (n vs 4n) over 20 size-parameterised nesting/chain families, not by wall clock.",
+   text="Generated byte strings (random lexeme/rune/byte concatenations incl. invalid UTF-8, 1-3 token/byte mutations of corpus queries, every prefix of corpus queries, token-boundary prefixes followed by a dangling operator / sign / bracket / keyword, grammar derivations) are parsed under NewContext() and DefaultCypherContext(): no panic, never (nil,nil), blank input rejected, and a model returned with a nil error must be printable by the emitter and walkable. 'Bounded' is decided by a deterministic allocation-count growth exponent (n vs 4n) over 20 size-parameterised nesting/chain families, not by wall clock.",
    note="Inputs up to a few KB (families up to 4000 repetitions in thorough); stack exhaustion at megabyte-deep nesting is outside the explored bound; 'not partially built' is read as 'printable and walkable'.",
    design="§4 C08"),
  "C09": dict(
@@ -63,7 +63,7 @@ CLAIMED = {
    category="exploration",
    technique="property-based round-trip/differential testing (rapid) with a normal-form comparison plus a reference three-valued evaluator (bindings + truth tables) as arbiter",
    text="Generated builder programs (criteria trees over And/Or/Xor/Not, all predicates, kinds, projections, updates, allShortestPaths; literal/parameter values incl. int extremes, integral/huge floats, hostile strings; direct cypher-model compositions) are built once and applied to query.Builder (PG-path model) and neo4j.QueryBuilder (text); the text is re-parsed and its normal form (grouping, operand order, any-of/all-of kinds, typed literals, parameters by symbol and map value) must equal that of the parameter-rewritten model after the documented Neo4j rewrites; both criteria are additionally evaluated on generated bindings and three-valued truth tables. Sampling, not proof: the program space is unbounded while precedence/kind/literal slips are shallow and shrink to 2-3 node programs.",
-   note="Associative re-grouping of the same operator is accepted. Empty lists/kinds/maps, raw string literals, NaN/Inf and unsigned values above MaxInt64 as literals are outside the domain. Two open findings are excluded by construction: MinInt64 literal, nested arithmetic operands. Evaluator semantics are the check's own three-valued model, not Neo4j's.",
+   note="A second Neo4j query assembled from the SAME criteria values must be the same text with the same parameters; look-alike list pairs (same %v text, different values) are drawn into one case. Associative re-grouping of the same operator is accepted. Empty lists/kinds/maps, raw string literals, NaN/Inf and unsigned values above MaxInt64 as literals are outside the domain. Two open findings are excluded by construction: MinInt64 literal, nested arithmetic operands. Evaluator semantics are the check's own three-valued model, not Neo4j's.",
    design="§4 C10"),
  "C11": dict(
    category="exploration",
@@ -74,7 +74,7 @@ CLAIMED = {
  "C12": dict(
    category="exploration",
    technique="stateful property-based testing (rapid): model-based oracle plus round-trip invariant (loaded + delta = current), aliasing metamorphic check (untouched sibling unchanged)",
-   text="Generated edit/fork/merge histories over families of Properties, Relationships and Nodes sharing one loaded state (built the way the pg and neo4j drivers build loaded entities); after every step every entity is compared with a last-edit-wins model, its change sets must be disjoint and, applied to the loaded state, reproduce the current state; a second scenario builds all nodes from one shared Kinds slice.",
+   text="Generated edit/fork/merge histories over families of Properties, Relationships and Nodes sharing one loaded state (built the way the pg and neo4j drivers build loaded entities); after every step every entity is compared with a last-edit-wins model, its change sets must be disjoint and, applied to the loaded state, reproduce the current state; a third sub-check makes the kind values for one fresh name in 2-16 goroutines at the same moment and deletes / adds kinds across them; nil is one of the property values; a second scenario builds all nodes from one shared Kinds slice.",
    note="Bounded: <=5 entities, <=14 (24) steps, 4-key/4-kind alphabets; Merge judged only inside a family sharing a loaded state (batch upsert of fresh entities is outside the statement). Open finding: Properties.Merge copies the other side's whole map (excluded by construction).",
    design="§4 C12"),
  "C13": dict(
@@ -93,7 +93,7 @@ CLAIMED = {
    category="exploration",
    technique="stateful property-based testing (rapid) with BFS reference model + bounded exhaustive enumeration",
    text="Generated digraphs (CSR and adjacency-map) x cache capacities {<=0,1,2,3,n,100} x generated query histories over all five exported reachability calls in both directions, each answer compared with BFS on the original edge list after every query; an eviction-focused generator; SCC/condensation invariants against mutual reachability; plus an exhaustively enumerated sub-space (all 1024 DAGs on 5 ordered nodes x id order x direction x capacity x ordered first-query pairs).",
-   note="Graphs <= 8 nodes (12 thorough); cache content is observed only through answers and Stats().Hits(); single goroutine; DirectionBoth outside the verdict.",
+   note="Graphs <= 8 nodes (12 thorough); cache content is observed only through answers and Stats().Hits(); single goroutine; answers to DirectionBoth queries are outside the verdict, but such queries are part of the histories (1 op in 8).",
    design="§4 C15"),
  "C16": dict(
    category="exploration",
@@ -105,12 +105,12 @@ CLAIMED = {
    category="exploration",
    technique="property-based testing (rapid) with reference-model oracle (sequential expansion / path enumeration), fault injection at the k-th driver call, schedule perturbation, testing/synctest bubbles for deterministic deadlock and leak detection, Go race detector in both tiers",
    text="Generated BufferedPipe schedules (writers x reader behaviour x close/cancel), BreadthFirst expansion plans with fault plans (driver error, visitor error, cancellation, memory limit at the k-th call; 1-8 workers), and stored graphs with traversal plans for the sequential helpers are run under the race detector inside synctest bubbles and decided against a sequential reference expansion: exactly-once multiset equality, returned error identity, termination and goroutine-leak freedom (durably blocked bubble = failure, no timeouts), path-tree size accounting.",
-   note="Goroutine interleavings are sampled, not enumerated; 'promptly' = returned and joined without further driver progress; sequential helpers run on the in-memory fakedb; AcyclicTraverseTerminals decided as 'every reachable sink, nothing unreachable'.",
+   note="Goroutine interleavings are sampled, not enumerated; 'promptly' = returned and joined without further driver progress; sequential helpers run on the in-memory fakedb; AcyclicTraverseTerminals decided as 'every reachable sink, nothing unreachable'; node sets under skip/limit: drawn from the plan's set, at most limit, and of exactly the size filter+skip+limit fix when every reachable node has one way in; traversal.UniquePathSegmentFilter under 1-16 workers on fan-in graphs (each edge admitted at most once, exactly the considered edges on acyclic plans); the pattern driver with one worker against the same driver with N workers.",
    design="§4 C17"),
  "C18": dict(
    category="exploration",
    technique="property-based testing (rapid), round-trip + reference-model oracle (independent manifest recomputation and metrics model), shrinking to a replayable JSON case",
-   text="Property-based round trip over generated multi-graph databases (ids with gaps, kind-less nodes, parallel edges, nested/unicode/large-integer property values, empty graphs) x codec {none,gzip,zstd} x batch/shard sizes around the entity counts: Dump -> independent recomputation of the manifest from the bytes on disk (digests, sizes, counts, shard bounds, file set, metrics) -> Load into an empty in-memory database -> canonical graph comparison (numbers as exact decimals) -> Verify against source, loaded and a perturbed database judged by an independent metrics model.",
+   text="Property-based round trip over generated multi-graph databases (ids with gaps, kind-less nodes, parallel edges, nested/unicode/large-integer property values, empty graphs, kind names containing a comma, graph names that differ by case only, ids up to 2^64-1) x codec {none,gzip,zstd} x batch/shard sizes around the entity counts: Dump -> independent recomputation of the manifest from the bytes on disk (digests, sizes, counts, shard bounds, file set, metrics) -> Load into an empty in-memory database -> canonical graph comparison (numbers as exact decimals) -> Verify against source, loaded and a perturbed database judged by an independent metrics model.",
    note="The in-memory fakedb replaces the driver (no PostgreSQL/Neo4j behaviour); the 'exactly when' direction of Verify is decided only up to what the metrics fingerprint records (property-only changes are not judged); without uid properties the multiset comparison is necessary, not sufficient, for isomorphism.",
    design="§4 C18"),
  "C19": dict(
@@ -122,7 +122,7 @@ CLAIMED = {
  "C20": dict(
    category="fault_enumeration",
    technique="property-based fault enumeration: enumerated byte/truncation sweeps and rapid-generated structural mutations with shrinking and replay; oracles = fakedb mutation log, sandbox tree hash, graph isomorphism, portable tar-stream model; coverage-guided native fuzz target FuzzC20 (60 s) in the thorough tier",
-   text="Every byte position and every truncation length of small dumps, their tar and HPKE archives and key files (all codecs), plus enumerated fragment/frame operations, generated manifest edits (35 kinds, hostile paths), hostile tar streams (absolute/parent/volume/backslash names, links, devices, FIFOs, oversize/lying sizes, duplicates, PAX records) and wrong/malformed keys, each driven through Load, UnpackTar, UnpackEncryptedCollectionArchive, Unpack and Load(ArchiveReader) inside a hashed sandbox with a logging in-memory database: an error must come before any node/relationship write, nothing outside the output directory may change, owners of a destination leave no partial output, success is accepted only with the identical tree / an isomorphic graph, an encrypted archive opens only with the matching key.",
+   text="Every byte position and every truncation length of small dumps, their tar and HPKE archives and key files (all codecs), plus enumerated fragment/frame operations, generated manifest edits (36 kinds incl. a whole entry taken from another graph, hostile paths), hostile tar streams (absolute/parent/volume/backslash names, links, devices, FIFOs, oversize/lying sizes, duplicates, PAX records) and wrong/malformed keys, each driven through Load, UnpackTar, UnpackEncryptedCollectionArchive, Unpack and Load(ArchiveReader) inside a hashed sandbox with a logging in-memory database: an error must come before any node/relationship write, nothing outside the output directory may change, owners of a destination leave no partial output, success is accepted only with the identical tree / an isomorphic graph, an encrypted archive opens only with the matching key.",
    note="quick: all positions of the smallest dump directory and of the private key file, strided tar/archive, sampled rest; thorough: all positions x 2 masks x all 12 fixtures across 8 shards. 'No partial output' asserted for Unpack and Load(ArchiveReader) only (the building blocks extract straight into the directory they are handed); unsigned manifest: an accepted mutation must give an identical result; effects observed on Linux with a portable POSIX+Windows name model; disk exhaustion (sparse expansion) not judged.",
    design="§4 C20"),
 }
